@@ -402,7 +402,19 @@ pub fn run(ctx: &mut Ctx) {
                 let lead = match n { 2 => "x", 4 => "u", _ => "U" };
                 let mut digits: Vec<char> = (0..n).map(|_| *rng.pick(&['0', '1', 'a', 'F'])).collect();
                 let p = rng.below(n);
-                digits[p] = *rng.pick(&['g', 'z', ' ', '-', 'G']);
+                // any character that is not a hexadecimal digit (quote characters and the backslash excluded:
+                // they would end or continue the literal differently)
+                digits[p] = loop {
+                    let c = match rng.below(4) {
+                        0 => *rng.pick(&['+', '-', '_', '.', ' ', 'g', 'G', 'x', 'u', '#', '~', ':', '/', '@', '`', '{', '}']),
+                        1 => (0x20u8 + rng.below(0x5f) as u8) as char,
+                        2 => *rng.pick(&['é', 'ａ', '１', '٣', '\u{ff10}', '😀']),
+                        _ => *rng.pick(&['+', '-']),
+                    };
+                    if !c.is_ascii_hexdigit() && c != '\'' && c != '"' && c != '\\' {
+                        break c;
+                    }
+                };
                 ("non-hex-digit", format!("{q}{pre}\\{}{}{post}{q}", lead, digits.into_iter().collect::<String>()))
             }
             9 => {
